@@ -6,7 +6,8 @@
    Part 2: ALL schedules of ANY number of threads running ANY programs (transition systems
    Core/DispConc.v: one locked block / one unlocked access / one call out = one step).
    Models are tied to /repo by harness/props/C25.py (K1 histories, K3 controlled interleavings). *)
-From RxVerif Require Import Base.Prelude Core.Disposables Core.DisposablesFacts Core.DispConc Core.DispConcFacts.
+From RxVerif Require Import Base.Prelude Core.Disposables Core.DisposablesFacts Core.DispConc Core.DispConcFacts
+  Core.DispConcFacts2.
 
 (* ---- one thread: all call histories ------------------------------------------ *)
 Local Open Scope nat_scope.
@@ -143,4 +144,93 @@ Proof. vm_compute. eexists. split; [reflexivity|]. split; [left; reflexivity|ref
 Example C25_witness_scheduled_race :
   let c := hc_run 3%nat [[SchDispose; SchDispose]; [SchRunOne]; [SchRunOne]] [0; 0; 1; 2; 1; 2; 1]%nat in
   plain (c_log c) = [OSched; OSched; ORun; ORun; ODisp 3%nat] /\ quiescent c = true.
+Proof. vm_compute. repeat split. Qed.
+
+(* ---- the ghost histories and the programs; exactly once IFF CALLED ----------------- *)
+(* at every moment of every schedule, thread k's program is: the calls it has started (oldest first)
+   followed by the calls it has not started yet (any of the transition systems) *)
+Theorem C25_history_is_program_prefix :
+  forall progs sched k t,
+  nth_error (c_ths (dd_run progs sched)) k = Some t ->
+  nth_error progs k = Some (rev (t_hist t) ++ t_todo t).
+Proof. exact (hist_todo_progs dd_start dd_act d_init). Qed.
+Print Assumptions C25_history_is_program_prefix.
+
+(* EXACTLY ONCE IFF dispose() WAS CALLED, any number of threads, every schedule: once all calls have
+   returned the action was invoked exactly once if some thread's program contains a dispose() call and
+   not at all otherwise *)
+Theorem C25_exactly_once_iff_called :
+  forall progs sched,
+  let c := dd_run progs sched in
+  quiescent c = true ->
+  runs (plain (c_log c)) = if existsb (existsb is_ddispose) progs then 1%nat else 0%nat.
+Proof. exact disposable_conc_exactly_once_iff_called. Qed.
+Print Assumptions C25_exactly_once_iff_called.
+
+(* ... and at every moment (quiescent or not) it was not invoked if no program contains a dispose() *)
+Theorem C25_never_if_not_called :
+  forall progs sched,
+  existsb (existsb is_ddispose) progs = false -> runs (plain (c_log (dd_run progs sched))) = 0%nat.
+Proof. exact disposable_conc_never_if_not_called. Qed.
+Print Assumptions C25_never_if_not_called.
+
+(* the flag is only ever set by a dispose() call (converse of C25_reports_all_interleavings), and once
+   all calls returned it says exactly whether some program contains one *)
+Theorem C25_flag_iff_called :
+  forall progs sched,
+  let c := dd_run progs sched in
+  (c_sh c = true -> existsb (existsb is_ddispose) progs = true) /\
+  (quiescent c = true -> c_sh c = existsb (existsb is_ddispose) progs).
+Proof. exact disposable_conc_flag_iff_called. Qed.
+Print Assumptions C25_flag_iff_called.
+
+(* QUERY-LEVEL REPORTING: once any thread has executed the first action of a dispose() call (a fortiori
+   once any dispose() has returned), every is_disposed query answered from then on -- by any thread,
+   under any continuation s2 of the schedule -- returns True *)
+Theorem C25_query_after_dispose :
+  forall progs s1 s2 k t more tid b,
+  nth_error (c_ths (dd_run progs s1)) k = Some t -> In DDispose (t_hist t) ->
+  c_log (dd_run progs (s1 ++ s2)) = c_log (dd_run progs s1) ++ more ->
+  In (tid, OBool b) more -> b = true.
+Proof. exact disposable_conc_query_after_dispose. Qed.
+Print Assumptions C25_query_after_dispose.
+
+Theorem C25_boolean_query_after_dispose :
+  forall progs s1 s2 k t more tid b,
+  nth_error (c_ths (bd_run progs s1)) k = Some t -> In DDispose (t_hist t) ->
+  c_log (bd_run progs (s1 ++ s2)) = c_log (bd_run progs s1) ++ more ->
+  In (tid, OBool b) more -> b = true.
+Proof. exact boolean_conc_query_after_dispose. Qed.
+Print Assumptions C25_boolean_query_after_dispose.
+
+(* ONLY ON THE SCHEDULER, at every moment of every schedule (not only at quiescence): if the wrapped item
+   has received its dispose() call then the scheduler has invoked at least one queued action, and the
+   thread that made the dispose() call is a thread on which the scheduler invoked a queued action *)
+Theorem C25_scheduled_only_on_scheduler :
+  forall w progs sched tid,
+  let c := hc_run w progs sched in
+  (1 <= zdisp w (plain (c_log c)) -> (1 <= runs (plain (c_log c)))%nat) /\
+  (In (tid, ODisp w) (c_log c) -> In (tid, ORun) (c_log c)).
+Proof. exact scheduled_conc_only_on_scheduler. Qed.
+Print Assumptions C25_scheduled_only_on_scheduler.
+
+(* non-vacuity: T1's dispose() has executed its locked block (not yet the action) after schedule [1];
+   the continuation [0;2;1;0;2] makes T2's query and T0's later query both answer True; and a quiescent
+   run whose programs contain no dispose() *)
+Example C25_witness_query_after_dispose :
+  let progs := [[DIsDisposed; DIsDisposed]; [DDispose]; [DIsDisposed]] in
+  (exists t, nth_error (c_ths (dd_run progs [1]%nat)) 1 = Some t /\ In DDispose (t_hist t)) /\
+  c_log (dd_run progs ([1] ++ [0; 2; 1; 0; 2])%nat) =
+    c_log (dd_run progs [1]%nat) ++ [(0%nat, OBool true); (2%nat, OBool true); (1%nat, ORun); (0%nat, OBool true)] /\
+  quiescent (dd_run progs ([1] ++ [0; 2; 1; 0; 2])%nat) = true /\
+  existsb (existsb is_ddispose) progs = true.
+Proof. vm_compute. split; [eexists; split; [reflexivity|left; reflexivity]|repeat split]. Qed.
+Example C25_witness_not_called :
+  let c := dd_run [[DIsDisposed]; []] [0; 1]%nat in
+  quiescent c = true /\ existsb (existsb is_ddispose) [[DIsDisposed]; []] = false /\ c_log c = [(0%nat, OBool false)].
+Proof. vm_compute. repeat split. Qed.
+(* the worker (thread 1) that makes the dispose() call logged ORun itself; not yet quiescent *)
+Example C25_witness_only_on_scheduler :
+  let c := hc_run 3%nat [[SchDispose]; [SchRunOne]] [0; 1; 1; 1]%nat in
+  c_log c = [(0%nat, OSched); (1%nat, ORun); (1%nat, ODisp 3%nat)] /\ zdisp 3%nat (plain (c_log c)) = 1.
 Proof. vm_compute. repeat split. Qed.
